@@ -740,9 +740,26 @@ pub fn run_send(case: &SendCase) -> SendObs {
         rb = rb.params(case.params[1..].iter().map(|(k, v)| (k.clone(), v.clone())).collect::<Vec<(String, String)>>());
     } else if case.params.len() == 1 && case.url.contains('?') && case.url.len() % 2 == 0 {
         rb = rb.params(case.params.clone());
+    } else if !case.params.is_empty() && (case.url.len() + case.params.len()) % 3 == 1 {
+        // query(): the pairs through serde (the same application/x-www-form-urlencoded serialisation)
+        rb = match rb.query(&case.params) {
+            Ok(rb) => rb,
+            Err(e) => {
+                obs.fin = FinalObs::Err(format!("query:{:?}", e.kind()));
+                return obs;
+            }
+        };
     } else {
         for (k, v) in &case.params {
             rb = rb.param(k, v);
+        }
+    }
+    // the inspector shows the request as built so far
+    {
+        let insp = rb.inspect();
+        if insp.method().as_str() != case.method && attohttpc::Method::from_bytes(case.method.as_bytes()).is_ok() {
+            obs.fin = FinalObs::Err(format!("inspect-method:{}", insp.method()));
+            return obs;
         }
     }
     let rb = apply_steps(rb, &case.pre);
